@@ -144,7 +144,9 @@ def run(ctx, proof):
         n = rng.choice([1, 2, 2, 3, 3, 3, 4, 4, 5])
         L = rng.randint(1, 16 if ctx.quick else 40)
         # objects: list of dicts {g, hist (model ops incl. 'neg'), abstract}
-        objs = [{"g": IncompleteCooperativeGame(n), "hist": [], "abs": Abstract(), "res": []}]
+        comp0 = rng.choice(["superadditive", "superadditive_cached", "sam:1"])   # the objects' own computer: compute ops
+        # naming it go through the public compute_bounds(), the others call the computer function on the object
+        objs = [{"g": IncompleteCooperativeGame(n, bl.computer_fn(comp0)), "hist": [], "abs": Abstract(), "res": []}]
         nontrivial = False
         bound_after_reveal = False
         revealed = False
@@ -175,7 +177,7 @@ def run(ctx, proof):
                 snapshot = [bl.table_of(x["g"]) for x in objs]
                 continue
             before_others = [bl.table_of(x["g"]) for j, x in enumerate(objs) if j != idx]
-            st = opslib.apply_op(ob["g"], o)
+            st = opslib.apply_op(ob["g"], o, comp0)
             ob["hist"].append(o)
             ob["res"].append((st, bl.table_of(ob["g"])))
             ob["abs"].apply(o, st, n)
